@@ -337,6 +337,7 @@ def jobs(tier, seed):
         out.append({'family': f'roundtrip-{kind}', 'kind': 'explore', 'cfg': cfg, 'dev_bound': k, 'sub': kind})
     out.append({'family': 'commentary', 'kind': 'commentary'})
     out.append({'family': 'user-fields', 'kind': 'userfields'})
+    out.append({'family': 'files', 'kind': 'files', 'tier': tier})
     out.sort(key=lambda j: -j.get('dev_bound', 0))
     if seed:
         r = seed % len(out)
@@ -482,7 +483,90 @@ def run_userfields(job):
             'validated': c['user_field_cases'], 'samples': [{'user_field': {'two words': "it's"}}], 'merge': set()}
 
 
+def run_files(job):
+    """several different hands in one file and the file-pointer forms: every ordered selection of 1-3 hands out of one hand per
+    variant code (different variants, player counts, chip types, user fields) is written with dumps_all / dump_all and read
+    back with loads_all / load_all; each hand also goes through dump / load; what is read back must be, hand by hand, what
+    loads(dumps()) gives, and replay to the played stacks"""
+    import io
+    from itertools import permutations
+    H = HH()
+    env.set_warnings('ignore')
+    viol = []
+    c = Counter()
+    hands = []
+    for k, code in enumerate(CODES):
+        cfg = {'code': code, 'mode': 'cash' if k % 2 else 'tournament', 'autos': 'ALL', 'trim': True, 'antes': 0,
+               'stacks': (20, 20, 20)[:2 + k % 2], 'chips': 'decimal' if k % 3 == 2 else None}
+        game = mk_game(cfg)
+        st = build(cfg)
+        guard = 0
+        while st.status and guard < 200:
+            guard += 1
+            if st.can_post_bring_in():
+                st.post_bring_in()
+            elif st.can_stand_pat_or_discard():
+                st.stand_pat_or_discard()
+            elif guard == 3 and st.can_complete_bet_or_raise_to():
+                st.complete_bet_or_raise_to()
+            elif st.can_check_or_call():
+                st.check_or_call()
+            else:
+                break
+        hands.append((code, H.from_game_state(game, st, hand=k + 1, _note=f'hand {k}' if k % 2 else k), list(st.stacks)))
+
+    def same(a, b):
+        return data_fields(a) == data_fields(b) and a.user_defined_fields == b.user_defined_fields
+
+    for code, hh, stacks in hands:
+        c['file_cases'] += 1
+        buf = io.BytesIO()
+        try:
+            hh.dump(buf)
+            buf.seek(0)
+            back = H.load(buf)
+            ref = H.loads(hh.dumps())
+        except Exception as exc:
+            viol.append(V('file-raised', f'{code}: dump/load: {type(exc).__name__}: {exc}', {'code': code}, type(exc).__name__))
+            continue
+        if not same(back, ref) or buf.getvalue().decode() != hh.dumps():
+            viol.append(V('dump-load', f'{code}: dump(fp)/load(fp) differs from dumps()/loads()', {'code': code}))
+        if [float(x) for x in list(back)[-1].stacks] != [float(x) for x in stacks]:
+            viol.append(V('file-replay', f'{code}: replay of the loaded hand ends {list(back)[-1].stacks}, played {stacks}', {'code': code}))
+    sel = [q for r in (1, 2, 3) for q in permutations(range(len(hands)), r)]
+    if job.get('tier') != 'thorough':
+        sel = [q for q in sel if len(q) < 3 or q[0] < q[1] < q[2]]
+    for q in sel:
+        c['file_cases'] += 1
+        hs = [hands[i][1] for i in q]
+        cfgd = {'codes': [hands[i][0] for i in q]}
+        try:
+            text = H.dumps_all(hs)
+            back = list(H.loads_all(text))
+            buf = io.BytesIO()
+            H.dump_all(hs, buf)
+            buf.seek(0)
+            back2 = list(H.load_all(buf))
+        except Exception as exc:
+            viol.append(V('file-raised', f'{cfgd}: {type(exc).__name__}: {exc}', cfgd, type(exc).__name__))
+            continue
+        refs = [H.loads(h.dumps()) for h in hs]
+        for name, got in (('loads_all', back), ('load_all', back2)):
+            if len(got) != len(refs) or not all(same(a, b) for a, b in zip(got, refs)):
+                viol.append(V('all-hands', f'{cfgd}: {name} returned {len(got)} hands / hands differ from the ones written '
+                              f'(hand numbers {[g.hand for g in got]})', cfgd, name))
+                break
+        else:
+            for i, g in zip(q, back):
+                if [float(x) for x in list(g)[-1].stacks] != [float(x) for x in hands[i][2]]:
+                    viol.append(V('file-replay', f'{cfgd}: hand {hands[i][0]} replays to {list(g)[-1].stacks}, played {hands[i][2]}', cfgd))
+    return {'family': job['family'], 'stats': {}, 'violations': viol[:20], 'counters': dict(c), 'evaluations': c['file_cases'],
+            'validated': c['file_cases'], 'samples': [{'codes': [h[0] for h in hands[:3]]}], 'merge': set()}
+
+
 def run_job(job):
+    if job['kind'] == 'files':
+        return run_files(job)
     if job['kind'] == 'explore':
         return run_explore(job)
     if job['kind'] == 'commentary':
